@@ -37,19 +37,19 @@ approximate: >= 3 pieces at mixed depths. Distinct by the bit pattern of the cas
 // ---------------------------------------------------------------- tolerances (relative to the per-component scale = max |control coordinate|)
 
 /// eval / fast_eval vs f64 Bernstein, and eval vs fast_eval
-const EVAL_REL: f64 = 2e-5;
+const EVAL_REL: f64 = 1e-5;
 /// excursion outside the control points' bounding box
-const BBOX_REL: f64 = 2e-5;
+const BBOX_REL: f64 = 8e-6;
 /// tangent vs f64 derivative
-const TAN_REL: f64 = 5e-5;
+const TAN_REL: f64 = 2.5e-5;
 /// tangent vs (difference quotient of the library's eval over 2h = 1/32, truncation term removed)
-const FD_REL: f64 = 5e-4;
+const FD_REL: f64 = 2.5e-4;
 /// spline eval vs f64 cubic of the segment at the local parameter (includes the f32 rounding of t*n)
 const SPL_REL: f64 = 5e-5;
 /// spline tangent vs derivative of the segment
-const SPL_TAN_REL: f64 = 1e-4;
+const SPL_TAN_REL: f64 = 6e-5;
 /// logged error vector vs eval(mid) - (eval(a)+eval(b))/2
-const ERR_REL: f64 = 3e-6;
+const ERR_REL: f64 = 1.5e-6;
 /// absolute floor (all-zero components)
 const ABS: f64 = 1e-30;
 
